@@ -83,6 +83,21 @@ func interactionPrograms() []string {
 		out = append(out, fmt.Sprintf(`pair = func(x, y) {[x, y]}; a = [1, 2]; f = func(v) {set = func() {v = 50; v}; %s}; println(f(1))`, e))
 		out = append(out, fmt.Sprintf(`pair = func(x, y) {[x, y]}; v = 1; a = [1, 2]; set = func() {v = 50; a = [7]; v}; println(%s, v)`, e))
 	}
+	// (E) containers that were large and were shrunk / emptied (the large representation with few or no elements),
+	//     then every builtin, operator and loop form applied to them
+	uses := []string{"first(m)", "rest(m)", "len(m)", "m", "m[0:1]", "m[0]", "m + m", "m == m", "m < m", "for x = m {println(x)}", "m[1:]", "catch(m.k).err", "[m, m]", "m + {}", `m + [1]`, "del(m[0])", "m[0] = 1; m"}
+	for _, build := range []string{
+		`m = {1: 1, 2: 2, 3: 3, 4: 4, 5: 5}; for k = 1:6 {del(m[k])}`,
+		`m = {1: 1, 2: 2, 3: 3, 4: 4, 5: 5}; for k = 2:6 {del(m[k])}`,
+		`m = {1: 1, 2: 2, 3: 3, 4: 4, 5: 5, 6: 6}; del(m[6]); del(m[5])`,
+		`m = {}; for k = 7 {m[k] = k}; for k = 7 {del(m[k])}`,
+		`m = 1:12; m = m[0:0]`, `m = 1:12; m = m[11:]`, `m = (1:12)[3:3]`, `m = rest(rest(1:11))`, `m = [1] * 9; m = m[0:1]`,
+		`m = {1: 1, 2: 2, 3: 3, 4: 4, 5: 5, 6: 6}; m = m[0:0]`, `m = {1: 1, 2: 2, 3: 3, 4: 4, 5: 5, 6: 6}; m = m[5:]`, `m = rest({1: 1, 2: 2, 3: 3, 4: 4, 5: 5})`,
+	} {
+		for _, u := range uses {
+			out = append(out, fmt.Sprintf(`%s; r = catch(func() {%s}()); if r.err {println("E")} else {println(r.value)}`, build, u))
+		}
+	}
 	// containers reached through references
 	for _, a := range []string{"x[0] = 5", `x.k = 5`, "del(x[0])", "x = x + 1", "x = x + x", "del(x)"} {
 		for _, init := range []string{"[1, 2, 3]", `{"k": 1, 0: 2}`, "1:12", `{1: 1, 2: 2, 3: 3, 4: 4, 5: 5}`} {
